@@ -487,3 +487,55 @@ theorem graphLoop_toBool (en dis : List String) (svcs : List Svc) :
       | ok p => rfl
 
 end CV.Det
+
+namespace CV.Det
+open CV CV.Val
+
+/-! ### whole decoders under a permutation of the source mapping -/
+
+theorem hostsCleanup_perm {m m' : AL (List String)} (hp : m'.Perm m) :
+    (hostsCleanup m').map hostsRender = (hostsCleanup m).map hostsRender := by
+  simp only [hostsCleanup]
+  rw [hp.any_eq]
+  split
+  · rfl
+  · simp only [Except.map]
+    congr 1
+    exact hostsRender_perm' (hp.map _)
+
+theorem hostsDecode_map_perm {kvs kvs' : KVs} (hn : (akeys kvs).Nodup) (hp : kvs'.Perm kvs) :
+    (hostsDecode (.map kvs')).map hostsRender = (hostsDecode (.map kvs)).map hostsRender := by
+  simp only [hostsDecode]
+  rw [hp.any_eq]
+  split
+  · rfl
+  · exact hostsCleanup_perm (rangeWrite_perm' _ hn hp)
+
+theorem mappingDecode_map_perm {kvs kvs' : KVs} (hn : (akeys kvs).Nodup) (hp : kvs'.Perm kvs) :
+    (mappingDecode (.map kvs')).map mappingValues = (mappingDecode (.map kvs)).map mappingValues := by
+  simp only [mappingDecode, Except.map]
+  congr 1
+  exact mappingValues_perm' (rangeWrite_perm' _ hn hp)
+
+/-- `mergeGenericKVs` is `mergeMappings` with the recursive call (and the `x-` rule) as combiner -/
+def genericCombiner (k : String) (e v : Val) : Except Unit Val :=
+  if isExtKey k then .ok v else mergeGeneric e v
+
+theorem mergeGenericKVs_eq (a b : KVs) : mergeGenericKVs a b = mergeKVsE genericCombiner a b := by
+  induction b generalizing a with
+  | nil => simp [mergeGenericKVs, mergeKVsE]
+  | cons hd tl ih =>
+    obtain ⟨k, v⟩ := hd
+    rw [mergeGenericKVs, mergeKVsE]
+    cases ha : find k a with
+    | none => simp only []; exact ih _
+    | some e =>
+      simp only [genericCombiner]
+      by_cases hx : isExtKey k = true
+      · simp only [hx, if_true]; exact ih _
+      · simp only [hx, Bool.false_eq_true, if_false]
+        cases mergeGeneric e v with
+        | error x => rfl
+        | ok m => simp only []; exact ih _
+
+end CV.Det
